@@ -387,7 +387,9 @@ func TestC08(t *testing.T) {
 		if !disabled("c08.raw-directives") && rapid.IntRange(0, 3).Draw(t, "rawdir") == 0 {
 			// directives the model has no fields for: the display format of amounts without commodity,
 			// a price without amount commodity ... - whatever the server makes of them, what it reports lies inside the text
-			raw := rapid.SampledFrom([]string{"commodity 1.000,00", "commodity 1 000 000.9455", "D 1,000.00", "commodity", "account", "P 2024-01-01 EUR 1.10", "Y 2024", "payee Whole Foods", "tag trip", "alias a=b"}).Draw(t, "rawline")
+			raw := rapid.SampledFrom([]string{"commodity 1.000,00", "commodity 1 000 000.9455", "D 1,000.00", "commodity", "account", "P 2024-01-01 EUR 1.10", "Y 2024", "payee Whole Foods", "tag trip", "alias a=b",
+				// headers with nothing where a payee would be
+				"2024-01-01 | note only", "2024-01-01 * | n", "2024-01-01 (c) |x", "2024-01-01", "2024-01-01 !", "2024-01-01 (7)"}).Draw(t, "rawline")
 			at := rapid.IntRange(0, len(c.Journal.Entries)).Draw(t, "rawat")
 			c.Journal.Entries = append(c.Journal.Entries[:at:at], append([]m.Entry{{Raw: &raw, Blank: 1}}, c.Journal.Entries[at:]...)...)
 		}
